@@ -6,6 +6,11 @@ PY = '/venv/bin/python'
 ALL = ['C%02d' % i for i in range(1, 21)]
 
 CHECKS = {
+ 'C01': dict(level='model_checking', engine='E1-vloop',
+   text='Deviation-bounded exhaustive exploration of a real Queue on the virtual gevent loop with each real storage backend (dict, disk on in-memory FS, redis on fake client, cloud on fake object store), a scripted relay whose outcome per attempt is enumerated over the documented contract (None/Reply, transient, permanent, other exception, every complete per-recipient mapping, sequences), 6 backoff functions, 1-2 messages x 1-2 (3 thorough) recipients, bounded/unbounded pools, bounce factory/queue variants, null sender, pre-stored message; bounces are delivered through the same relay.  All outcome histories with <= dd non-default outcomes x all loop-level schedules with <= d deviations, quiescent states merged; recipient-ledger obligations at quiescence (nothing stranded, nothing removed while outstanding, attempts carry exactly the outstanding recipients, failed recipients bounced).',
+   note='Scripted relay restricted to the documented Relay.attempt contract; fake redis (no server in the image) and fake object store with aws.py semantics; gevent FIFO dispatch is platform semantics; real relay classes feeding the queue are covered by C11.',
+   technique='stateless deviation-bounded model checking of the real queue on a virtual event loop with quiescent-state merging and a ledger oracle',
+   design='5/C01'),
  'C05': dict(level='exploration', engine='E2-stategraph',
    text='Exhaustive over every message over {., CR, LF, a} up to length 6 (quick) / 8 (thorough), every split into sender parts, five pipelined suffixes, every recv_buffer/socket division and ALL segmentations (explicit state graph of the real DataReader fed through the real IO.raw_recv). Inside these bounds the property is decided, not sampled.',
    note='Bytes outside the alphabet are assumed to behave like "a" (one 8-bit symbol added in thorough); max_size=None (size limit is C09). "Randomly beyond the bound" is not done (sampling is outside this family).',
